@@ -20,10 +20,11 @@ LEVEL_NOTE = ("Trusted: Coq kernel + vm_compute; hand-written model; BTreeMap be
 ASSUMPTIONS = ["height maps have unique keys per level (BTreeMap invariant; the generators only produce such maps, the harness asserts it)",
                "Ord/Eq of VerifyingKey and of the log id type agree with equality of the scenario indices"]
 TRUSTED = ["modelled not verified: BTreeMap (get, iter order, entry/insert, PartialEq) as an association list with unique keys"]
-RULE = ("quick: all 289 map pairs over 1 author x 2 logs x heights {-,0,1,2} (author absent / empty / any inner map), all 625 pairs over "
-        "2 authors x 1 log x {absent, empty, 0,1,2}, 1000 random pairs from the 83 521-pair domain 2 authors x 2 logs x {-,0,1,2} (with absent/empty "
-        "authors), 200 random larger pairs (<= 12 authors x 6 logs, remote derived from local by dropping/equal/behind/ahead per log, heights "
-        "up to u32::MAX); thorough: the whole 83 521-pair domain plus 3000 random pairs up to 50 authors x 10 logs. "
+RULE = ("both tiers: all 289 map pairs over 1 author x 2 logs x heights {-,0,1,2} (author absent / empty / any inner map) and all 625 pairs over "
+        "2 authors x 1 log x {absent, empty, 0,1,2}; quick adds 600 random pairs from the 83 521-pair domain 2 authors x 2 logs x {-,0,1,2} (with absent/empty "
+        "authors) and 200 random larger pairs (<= 12 authors x 6 logs, remote derived from local by dropping/equal/behind/ahead per log, whole-author copies "
+        "for the == shortcut, heights up to u32::MAX); thorough adds the whole 10 000-pair domain 2 authors x 2 logs x {-,0,1}, 5000 random pairs of the "
+        "83 521-pair domain and 3000 random pairs up to 50 authors x 10 logs. "
         "non-trivial = the diff has at least one range and at least one local log is not in the diff (remote equal or ahead)")
 
 
@@ -99,23 +100,26 @@ def _rand_pair(rng, max_authors, max_logs):
 def gen(tier, rng):
     hs = [0, 1, 2]
     big = _maps(2, 2, hs)
+    m12 = _maps(1, 2, hs)
+    for L in m12:
+        for R in m12:
+            yield {"L": L, "R": R}
+    m21 = _maps(2, 1, hs)
+    for L in m21:
+        for R in m21:
+            yield {"L": L, "R": R}
     if tier == "quick":
-        m12 = _maps(1, 2, hs)
-        for L in m12:
-            for R in m12:
-                yield {"L": L, "R": R}
-        m21 = _maps(2, 1, hs)
-        for L in m21:
-            for R in m21:
-                yield {"L": L, "R": R}
-        for _ in range(1000):
+        for _ in range(600):
             yield {"L": rng.choice(big), "R": rng.choice(big)}
         for _ in range(200):
             yield _rand_pair(rng, 12, 6)
     else:
-        for L in big:
-            for R in big:
+        m22 = _maps(2, 2, [0, 1])
+        for L in m22:
+            for R in m22:
                 yield {"L": L, "R": R}
+        for _ in range(5000):
+            yield {"L": rng.choice(big), "R": rng.choice(big)}
         for _ in range(3000):
             yield _rand_pair(rng, 50, 10)
 
